@@ -281,16 +281,37 @@ def opSample2D (j : Json) : R Json := do
     | [x, y] => s2J (sample2D F x y mask undef outside)
     | _ => .null) pts)
 
+/-- `bilin_inv` for single targets.  The Newton iterates are rounded to ~54 bits between
+    iterations (`quantize`), because exact rationals square their size at every iteration. -/
+def bilinInvQ (F G : Field2) (f g : Rat) (maxiter : Nat) (tol : Rat) : Option (Rat × Rat × Nat) :=
+  let imax : Int := F.length
+  let jmax : Int := (F.headD []).length
+  let rec go (n : Nat) (x y : Rat) (it : Nat) : Option (Rat × Rat × Nat) :=
+    match n with
+    | 0 => some (x, y, it)
+    | n + 1 =>
+      match bilinInvStep F G f g x y with
+      | none => none
+      | some (x', y', H) => if H < tol then some (x, y, it) else go n (quantize x') (quantize y') (it + 1)
+  go maxiter ((1 / 2 : Rat) * imax) ((1 / 2 : Rat) * jmax) 0
+
 def opBilinInv (j : Json) : R Json := do
   let F ← getF2 (← fld j "F")
   let G ← getF2 (← fld j "G")
   let tol ← getRat (← fld j "tol")
   let maxiter ← getNat (← fld j "maxiter")
+  let exact ← getBool (← fld j "exact")
   let pts ← getList (getList getRat) (← fld j "targets")
   pure (listJ (fun p => match p with
-    | [f, g] => (match bilinInv F G f g maxiter tol with
-        | some (x, y) => Json.arr #[ratJ x, ratJ y]
-        | none => .str "IndexError")
+    | [f, g] =>
+      if exact then
+        (match bilinInv F G f g maxiter tol with
+         | some (x, y) => Json.arr #[ratJ x, ratJ y]
+         | none => .str "IndexError")
+      else
+        (match bilinInvQ F G f g maxiter tol with
+         | some (x, y, it) => Json.arr #[ratJ x, ratJ y, natJ it]
+         | none => .str "IndexError")
     | _ => .null) pts)
 
 def getRomsFile (j : Json) : R RomsFile := do
